@@ -107,6 +107,10 @@ where
         let outgoing = self.txn_manager.control_link_outgoing.clone();
         let session_stop_reason = self.session.session_stop_reason().clone();
 
+        // With `--cfg fe2o3_amqp_verif` the `tokio::spawn` below resolves to the
+        // simulator's spawn seam
+        #[cfg(fe2o3_amqp_verif)]
+        use crate::verif::coordinator_seam as tokio;
         tokio::spawn(async move {
             // Error accepting new control link is handled by acceptor
             if let Ok(coordinator) = acceptor
@@ -127,6 +131,13 @@ where
 {
     fn allocate_transaction_id(&mut self) -> Result<TransactionId, AllocTxnIdError> {
         let mut txn_id = TransactionId::from(Uuid::new_v4().into_bytes());
+        #[cfg(fe2o3_amqp_verif)]
+        {
+            let mut bytes = [0u8; 16];
+            if crate::verif::entropy(&mut bytes) {
+                txn_id = TransactionId::from(bytes);
+            }
+        }
         while self.txn_manager.txns.contains_key(&txn_id) {
             txn_id = TransactionId::from(Uuid::new_v4().into_bytes());
         }
